@@ -7,6 +7,7 @@
 set -u
 export GOFLAGS=-mod=mod GOPROXY=off GOSUMDB=off GOTOOLCHAIN=local
 M=$(realpath "$1"); shift
+V=$(cd "$(dirname "$0")/.." && pwd)
 S=/tmp/muteval-$$
 git -C /repo worktree add -f --detach $S HEAD >/dev/null 2>&1 || { echo "worktree failed"; exit 2; }
 trap 'git -C /repo worktree remove --force $S >/dev/null 2>&1' EXIT
@@ -33,5 +34,5 @@ rm -f $pkgdir/$(basename "$demo")
 fi
 for P in "$@"; do
   echo "== vcheck $P against the mutant"
-  (cd /verif && VERIF_REPO=$S bin/vcheck $P --tier quick 2>&1 | cut -c1-400 | grep -E "^(VIOLATION|OK|KNOWN|  broken|  failing)" | head -6)
+  (cd $V && VERIF_REPO=$S bin/vcheck $P --tier quick 2>&1 | cut -c1-400 | grep -E "^(VIOLATION|OK|KNOWN|  broken|  failing)" | head -8)
 done
